@@ -6,6 +6,7 @@ package main
 import (
 	"errors"
 	"fmt"
+	"io"
 	"strings"
 	"time"
 
@@ -33,6 +34,9 @@ func (p params) name() string {
 	if p.Scenario == "stall" {
 		return fmt.Sprintf("stall/n%d/%s", p.N, p.Flavour)
 	}
+	if p.Scenario == "stallread" {
+		return "stallread/" + p.KindA
+	}
 	return fmt.Sprintf("fail/%s/%s/pos%d", p.KindA, p.Fault, p.Pos)
 }
 
@@ -54,9 +58,83 @@ type exec struct {
 
 func ping(i int) *common.MessagePing { return &common.MessagePing{Seq: uint32(i), TimeUsec: 1} }
 
+// stallread: a serial / TCP-client transport whose Write is stuck; then its read side fails.
+// The channel must be closed and reported (and the endpoint reconnects), the other channel is
+// unaffected, a later node Close returns.
+func (e *exec) stallread() {
+	p := e.p
+	n := &gomavlib.Node{Dialect: sx.Dialect(), OutVersion: gomavlib.V2, OutSystemID: 10, HeartbeatDisable: true, IdleTimeout: 500 * time.Second, WriteTimeout: 500 * time.Second}
+	e.a = &vnet.FakeConn{Name: "A", WriteBlockAt: 1 + vmc.Choose(2, "block-at")}
+	a2 := &vnet.FakeConn{Name: "A2"}
+	e.b = &vnet.FakeConn{Name: "B"}
+	var epA gomavlib.EndpointConf
+	if p.KindA == "serial" {
+		s := &sx.SerialScript{Conns: []*vnet.FakeConn{{Name: "probe"}, e.a, a2}}
+		s.Install()
+		epA = gomavlib.EndpointSerial{Device: "/dev/ttyFAKE", Baud: 57600}
+	} else {
+		d := &sx.DialScript{Results: []*vnet.FakeConn{e.a, a2}}
+		d.Install()
+		epA = gomavlib.EndpointTCPClient{Address: "1.2.3.4:5600"}
+	}
+	n.Endpoints = []gomavlib.EndpointConf{epA, gomavlib.EndpointCustom{ReadWriteCloser: e.b}}
+	if err := n.Initialize(); err != nil {
+		e.problems = append(e.problems, "Initialize: "+err.Error())
+		return
+	}
+	opens, closesA := 0, 0
+	var closeErr error
+	vmc.GoApp("consumer", func() {
+		e.log.Consume(n, -1, func(ev gomavlib.Event) {
+			switch x := ev.(type) {
+			case *gomavlib.EventChannelOpen:
+				opens++
+			case *gomavlib.EventChannelClose:
+				if _, isCustom := x.Channel.Endpoint().Conf().(gomavlib.EndpointCustom); !isCustom {
+					closesA++
+					closeErr = x.Error
+				}
+			}
+		})
+	})
+	vmc.Await("both open", func() bool { return opens >= 2 })
+	for i := 0; i < 4; i++ {
+		n.WriteMessageAll(ping(i)) //nolint
+	}
+	e.a.FailRead(io.EOF)
+	vmc.AddWake(vmc.Now().Add(6*time.Second), "settle")
+	target := vmc.NowNS() + int64(6*time.Second)
+	vmc.Await("settled", func() bool { return vmc.NowNS() >= target })
+	if closesA == 0 {
+		e.problems = append(e.problems, "the transport's read side failed while its writer is stuck in Write: no close event, the channel stays open and silent")
+	} else if closeErr != io.EOF {
+		e.problems = append(e.problems, fmt.Sprintf("close event carries %v, the transport failed with EOF", closeErr))
+	}
+	if !a2.Handed {
+		e.problems = append(e.problems, "the endpoint did not reconnect after its channel died")
+	}
+	n.WriteMessageAll(ping(9)) //nolint
+	e.appDone = true
+	vmc.AddWake(vmc.Now().Add(time.Second), "settle2")
+	t2 := vmc.NowNS() + int64(time.Second)
+	vmc.Await("settled2", func() bool { return vmc.NowNS() >= t2 })
+	if got := e.numbers(e.b.Written); fmt.Sprint(got) != fmt.Sprint([]uint32{0, 1, 2, 3, 9}) {
+		e.problems = append(e.problems, fmt.Sprintf("healthy channel B received %v, submitted [0 1 2 3 9]", got))
+	}
+	if got := e.numbers(a2.Written); fmt.Sprint(got) != fmt.Sprint([]uint32{9}) {
+		e.problems = append(e.problems, fmt.Sprintf("the reconnected channel received %v, only item 9 was written after it opened", got))
+	}
+	n.Close()
+}
+
 func (e *exec) Body() {
 	sx.ResetGlobals()
 	p := e.p
+	if p.Scenario == "stallread" {
+		e.stallread()
+		e.finished = true
+		vmc.Finish()
+	}
 	e.v2 = !(p.Fault == "v1-bigid" || p.Fault == "v1-bigid-frame")
 	n := &gomavlib.Node{
 		Dialect:          sx.Dialect(),
@@ -80,10 +158,18 @@ func (e *exec) Body() {
 			e.b.In = append(e.b.In, sx.FrameOf(true, byte(i), 42, 1, ping(100+i), nil, 0, 0))
 		}
 	}
-	if p.Fault == "write-error" {
+	if p.Fault == "write-error" || p.Fault == "write-timeout" {
 		e.failAt = 1 + vmc.Choose(3, "fail-at")
 		e.a.WriteFailAt = e.failAt
 		e.a.WriteErr = errors.New("injected write failure")
+		if p.Fault == "write-timeout" {
+			e.a.WriteErr = vnet.ErrTimeout // a net.Error with Timeout() == true
+		}
+	}
+	if p.Scenario == "stall" && p.KindA != "custom" {
+		// the stalled transport's read side fails a little later: the channel must be closed and
+		// reported although its writer is stuck inside Write
+		e.a.InErr = nil
 	}
 	var epA gomavlib.EndpointConf
 	switch p.KindA {
@@ -233,7 +319,7 @@ func (e *exec) Body() {
 		// either closed and reported, or every later valid write was delivered
 		if !e.closeA {
 			wantAfter := wantA
-			if p.Fault == "write-error" {
+			if p.Fault == "write-error" || p.Fault == "write-timeout" {
 				// the item of the failing call is lost; everything else must arrive
 				idx := e.failAt - 1
 				if idx < len(wantA) {
@@ -259,6 +345,7 @@ func (e *exec) numbers(writes [][]byte) []uint32 {
 	var out []uint32
 	for _, f := range frames {
 		if f.ID != 4 {
+			e.problems = append(e.problems, fmt.Sprintf("a frame that was never validly submitted reached the wire (an item that cannot be encoded for the link was emitted in some form): %v", f))
 			continue
 		}
 		if e.p.Fault == "nodialect-raw" {
@@ -323,10 +410,11 @@ func variants(thorough bool) []sx.Variant {
 	for _, fl := range []string{"all", "to", "except", "frame-to"} {
 		ps = append(ps, params{Scenario: "stall", KindA: "custom", N: 70, Flavour: fl})
 	}
+	ps = append(ps, params{Scenario: "stallread", KindA: "serial"}, params{Scenario: "stallread", KindA: "tcpclient"})
 	for _, kind := range []string{"custom", "serial", "tcpclient"} {
-		for _, f := range []string{"write-error", "raw-outside", "v1-bigid", "v1-bigid-frame", "nodialect-raw"} {
+		for _, f := range []string{"write-error", "write-timeout", "raw-outside", "v1-bigid", "v1-bigid-frame", "nodialect-raw"} {
 			for pos := 0; pos < 4; pos++ {
-				if f == "write-error" && pos > 0 {
+				if (f == "write-error" || f == "write-timeout") && pos > 0 {
 					continue // the failing call is chosen inside the scenario
 				}
 				ps = append(ps, params{Scenario: "fail", KindA: kind, Fault: f, Pos: pos})
